@@ -18,7 +18,7 @@ import (
 
 type c16rec struct {
 	name, iso, site, meth, org, src, supp, ref string
-	extraRef                                    int
+	extraRef                                   int
 }
 
 var c16suppliers = []struct{ letter, name string }{
@@ -57,10 +57,10 @@ const c16fieldProse = `<ENZYME NAME>   Restriction enzyme name.
 `
 
 type c16layout struct {
-	header   int // 0 none, 1 real header, 2 real header + field prose
-	tabs     bool
-	blank    bool // blank line between records
-	finalNL  bool
+	header  int // 0 none, 1 real header, 2 real header + field prose
+	tabs    bool
+	blank   bool // blank line between records
+	finalNL bool
 }
 
 func c16write(recs []c16rec, l c16layout) []byte {
